@@ -144,3 +144,30 @@ def read_only_guards():
     if not re.search(r"pub fn is_read_only_path\(&self, path: &OwnedTargetPath\) -> bool \{\s*self\.config\.is_read_only_path\(path\)\s*\}", f):
         return False, "FunctionCompileContext::is_read_only_path no longer delegates to CompileConfig::is_read_only_path"
     return True, "verify_mutable called %d times in Assignment::new; Del::compile guarded; FunctionCompileContext delegates" % n
+
+
+@scan("reported_paths_frame")
+def reported_paths_frame():
+    """C16 frame: queries are only built by Compiler::compile_query; compile_assignment reports every
+    external target of Assignment::targets(); ProgramInfo is filled from those two lists."""
+    bad = []
+    n_new = 0
+    for f in src_files("src"):
+        rel = os.path.relpath(f, C.REPO)
+        s = C.read(f)
+        cut = s.find("#[cfg(test)]")
+        body = s if cut < 0 else s[:cut]
+        k = len(re.findall(r"\bQuery::new\(", body))
+        if k and rel not in ("src/compiler/compiler.rs", "src/compiler/expression/query.rs", "src/compiler/test_util.rs"):  # test_util is cfg(any(test, feature = "test"))
+            bad.append("%s constructs a Query outside compile_query" % rel)
+        n_new += k if rel == "src/compiler/compiler.rs" else 0
+    c = C.read(os.path.join(C.REPO, "src/compiler/compiler.rs"))
+    if n_new != 1:
+        bad.append("compiler.rs constructs Query in %d places (contract: only compile_query)" % n_new)
+    if not re.search(r"for target in assignment\.targets\(\) \{\s*if let assignment::Target::External\(path\) = target \{\s*self\.external_assignments\.push\(path\);", c):
+        bad.append("compile_assignment no longer reports every external target of assignment.targets()")
+    if not re.search(r"target_queries: compiler\.external_queries,\s*target_assignments: compiler\.external_assignments,", c):
+        bad.append("ProgramInfo is no longer filled from external_queries/external_assignments")
+    if bad:
+        return False, "; ".join(bad)
+    return True, "Query::new only in compile_query; compile_assignment reports all external targets; ProgramInfo filled from both lists"
